@@ -29,7 +29,8 @@ def run(ctx, rep):
         names, rules = gen_rules(ctx.rng, ctx.rng.randint(1, 4))
         for n in names:
             if ctx.rng.random() < 0.3:      # substitution syntax inside the rule text (the text is echoed in messages)
-                rules[n] = ctx.rng.choice(["(%s) and not 'w':%%(k)s", "(%s) or k:%%(missing)s", "(%s) and not role:100%%%%"]) % rules[n]
+                rules[n] = ctx.rng.choice(["(%s) and not 'w':%%(k)s", "(%s) or k:%%(missing)s", "(%s) and not role:100%%%%",
+                                           "(%s) and 'v':%%(k)s", "(%s) or 'v':%%(k)s"]) % rules[n]
         default = ctx.rng.choice([None, None, 'dflt'])
         if default:
             rules['dflt'] = ctx.rng.choice(['role:r0', '@', '!', 'not role:r1'])
